@@ -14,6 +14,8 @@
 
 """Functions for checking expression types."""
 
+import functools
+
 from compiler.front_end import attributes
 from compiler.util import error
 from compiler.util import ir_data
@@ -79,17 +81,26 @@ def _type_check_boolean(expression, source_file_name, errors, expression_name):
     )
 
 
-def _kind_check_field_reference(expression, source_file_name, errors, expression_name):
-    if expression.which_expression != "field_reference":
-        errors.append(
-            [
-                error.error(
-                    source_file_name,
-                    expression.source_location,
-                    "{} must be a field.".format(expression_name),
-                )
-            ]
+def _kind_check_field_reference(
+    ir, expression, source_file_name, errors, expression_name
+):
+    if expression.which_expression == "field_reference":
+        # A runtime parameter is referenced like a field, but it is not a field:
+        # it has no existence condition.
+        referrent = ir_util.find_object_or_none(
+            expression.field_reference.path[-1], ir
         )
+        if not isinstance(referrent, ir_data.RuntimeParameter):
+            return
+    errors.append(
+        [
+            error.error(
+                source_file_name,
+                expression.source_location,
+                "{} must be a field.".format(expression_name),
+            )
+        ]
+    )
 
 
 def _type_check_integer_constant(expression):
@@ -164,15 +175,15 @@ def _type_check_operation(expression, source_file_name, ir, errors):
     elif function == ir_data.FunctionMapping.CHOICE:
         _type_check_choice_operator(expression, source_file_name, errors)
     else:
-        _type_check_monomorphic_operator(expression, source_file_name, errors)
+        _type_check_monomorphic_operator(expression, source_file_name, ir, errors)
 
 
-def _type_check_monomorphic_operator(expression, source_file_name, errors):
+def _type_check_monomorphic_operator(expression, source_file_name, ir, errors):
     """Type checks an operator that accepts only one set of argument types."""
     args = expression.function.args
     int_args = _type_check_integer
     bool_args = _type_check_boolean
-    field_args = _kind_check_field_reference
+    field_args = functools.partial(_kind_check_field_reference, ir)
     int_result = _annotate_as_integer
     bool_result = _annotate_as_boolean
     binary = ("Left argument", "Right argument")
